@@ -333,6 +333,7 @@ def options_strategy(cls: dict, max_len: int = 16384, rich_keys: bool = False):
     """Strategy of the option set of one class; only keys of mixins the class contains are generated."""
     d: dict = {"payload": _payload_strategy(cls, max_len)}
     d["words"] = st.tuples(st.integers(0, 2), st.integers(0, 2))  # which spelling of target / authentication
+    d["app_as"] = st.sampled_from(["bin", "bin", "bin", "bin", "srec", "hex"])  # file format of the application
     d["explicit_revision"] = st.booleans()
     if has(cls, "MixinLoadAddress"):
         d["load_address"] = _U32
@@ -821,6 +822,17 @@ def materialise(case: dict, root: str) -> Built:
     cfg = reorder(cfg, order_salt)
     labels.append("cfg_key_order:%d" % (order_salt % 3))
     b.config = cfg
+    app_as = opt.get("app_as", "bin")
+    if app_as != "bin":
+        # the application handed over as an S-record or Intel-HEX file (own writers, vf.ref.painter): one block at a 4 KiB-aligned address
+        from vf.ref import painter
+
+        base = 0x1000 * (int.from_bytes(hashlib.sha256(b.app[:64]).digest()[:2], "big") % 0x8000)
+        text = (painter.write_srec if app_as == "srec" else painter.write_ihex)([(base, b.app)])
+        cfg["inputImageFile"] = "app.s19" if app_as == "srec" else "app.hex"
+        _write(os.path.join(d, cfg["inputImageFile"]), text)
+        os.remove(os.path.join(d, "app.bin"))
+        labels.append("app_as:" + app_as)
     b.config_path = _write(os.path.join(d, "mbi.yaml"), yaml.safe_dump(cfg, sort_keys=False))
     labels += ["comp:" + cls["comp"], "auth:" + cls["auth"], "target:" + cls["target"], "type:%d" % cls["image_type"]]
     if cls["fixed_image_type"] is not None and cls["fixed_image_type"] != cls["image_type"]:
